@@ -289,12 +289,16 @@ def count_lines(path):
 
 
 # --------------------------------------------------------------------------- known findings
-def known_findings(pid):
-    p = os.path.join(VERIF, "known_findings.json")
-    if not os.path.exists(p):
-        return []
-    d = json.load(open(p))
-    return [f for f in d.get("findings", []) if f.get("property") == pid and f.get("status", "open") == "open"]
+def known_findings(pid, status="open"):
+    """Entries of known_findings.json and known_findings.d/*.json for this property."""
+    out = []
+    files = [os.path.join(VERIF, "known_findings.json")] + sorted(glob.glob(os.path.join(VERIF, "known_findings.d", "*.json")))
+    for p in files:
+        if not os.path.exists(p):
+            continue
+        d = json.load(open(p))
+        out += [f for f in d.get("findings", []) if f.get("property") == pid and f.get("status", "open") == status]
+    return out
 
 
 # --------------------------------------------------------------------------- evidence
